@@ -63,8 +63,8 @@ def replay_one(pid, path):
             ops.append(dict(op='add', sym=k[1], fwd=k[2]))
         elif k[0] == 'remove':
             ops.append(dict(op='remove', idx=k[1]))
-        elif k[0] == 'replace':
-            ops.append(dict(op='replace', idx=k[1], sym=k[2]))
+        elif k[0] in ('replace', 'replacep'):
+            ops.append(dict(op=k[0], idx=k[1], sym=k[2]))
         elif k[0] == 'tostring':
             ops.append(dict(op='tostring', ic=k[1]))
         else:
@@ -102,8 +102,8 @@ def _op(k):
         return dict(op='add', sym=k[1], fwd=k[2])
     if k[0] == 'remove':
         return dict(op='remove', idx=k[1])
-    if k[0] == 'replace':
-        return dict(op='replace', idx=k[1], sym=k[2])
+    if k[0] in ('replace', 'replacep'):
+        return dict(op=k[0], idx=k[1], sym=k[2])
     if k[0] == 'tostring':
         return dict(op='tostring', ic=k[1])
     return dict(op=k[0], sym=k[1])
